@@ -8,6 +8,7 @@ from vlib import *
 import pyed
 
 
+THOROUGH_ROUNDS = 2      # repetitions of the conformance part in the thorough tier (fresh random draws each)
 def torsion_encodings():
     out = []
     for k in range(8):
